@@ -1039,6 +1039,8 @@ pub fn log_script(
         let mut processed_count = 0;
         let mut reclaimed_space = FileLen(0);
 
+        #[cfg(fclones_verif)]
+        let rx = crate::verif::reorder(rx, "log_script", |item: &(usize, Vec<FsCommand>)| item.0);
         while let Ok((group_index, commands)) = rx.recv() {
             // Push the command group we received from the iterator.
             // We may receive them in an incorrect order, so we push them to a PriorityQueue.
